@@ -14,56 +14,99 @@
 import RxModel.Spec.OpLang
 import RxModel.Model.Program
 import RxModel.Props.C01
+import RxModel.Proofs.OptLemmas
 namespace Rx.C08
 open Rx
 
-/-- every member of the language is at least `get_minimum_match_length` long -/
+/-- every member of the language is at least `get_minimum_match_length` long
+    (`hlen` and `hp` turn out not to be needed: saturation only lowers the bound) -/
 theorem minLen_sound (ctx : Ctx) (hlen : ctx.len < usizeMax) (op : Op) (p q : Nat) (hp : p ≤ ctx.len)
     (h : OpR ctx op p q) : p + minLenOp op ≤ q := by
-  sorry
+  have _ := hlen
+  have _ := hp
+  exact OptL.minLen_op ctx op p q h
 
 /-- minimum-length cut-off: if fewer than `minimum_length` characters remain after `i`, no member
     of the language starts at or after `i` -/
 theorem minlen_cutoff_sound (ctx : Ctx) (hlen : ctx.len < usizeMax) (op : Op) (i j q : Nat)
     (hcut : ctx.len - i < minLenOp op) (hij : i ≤ j) (hj : j ≤ ctx.len) : ¬ OpR ctx op j q := by
-  sorry
+  intro h
+  have h1 := minLen_sound ctx hlen op j q hj h
+  have h2 := (C01.OpR_bounds ctx op j q hj h).2
+  omega
 
 /-- literal-prefix scan: a member of the language of `atom cs · rest` starts with `cs` -/
 theorem prefix_sound (ctx : Ctx) (cs : List Nat) (rest : List Op) (j q : Nat)
     (h : OpR ctx (.seq (.atom cs :: rest)) j q) :
     j + cs.length ≤ ctx.len ∧ prefixMatch ctx cs (ctx.input.drop j) = true := by
-  sorry
+  simp only [OpR, OpRSeq] at h
+  obtain ⟨m, ⟨rfl, hm, hpre⟩, _⟩ := h
+  exact ⟨hm, hpre⟩
 
 /-- first-character filter: a member of the language of `cls rs · rest` starts with a character of `rs` -/
 theorem icc_sound (ctx : Ctx) (rs : Ranges) (rest : List Op) (j q : Nat)
     (h : OpR ctx (.seq (.cls rs :: rest)) j q) :
     ∃ c, ctx.input[j]? = some c ∧ clsContains rs c = true := by
-  sorry
+  simp only [OpR, OpRSeq] at h
+  obtain ⟨m, ⟨_, hc⟩, _⟩ := h
+  exact hc
 
 /-- start-anchor fast path: a member of the language of `^ · rest` starts at offset 0, or (flag m)
     right after a newline that is not the last character -/
 theorem hasbol_sound (ctx : Ctx) (rest : List Op) (j q : Nat) (h : OpR ctx (.seq (.bol :: rest)) j q) :
     j = 0 ∨ (ctx.multiLine = true ∧ ctx.input[j - 1]? = some 10 ∧ j < ctx.len) := by
-  sorry
+  simp only [OpR, OpRSeq] at h
+  obtain ⟨m, ⟨_, hb⟩, _⟩ := h
+  exact hb
 
-/-- `matches_empty_string() == MATCHES_ZLS_ANYWHERE` is sound: the empty match exists at every offset -/
-theorem mzs_anywhere_sound (ctx : Ctx) (op : Op) (h : mzs op = ZLS_ANYWHERE) (p : Nat) (hp : p ≤ ctx.len) :
-    OpR ctx op p p := by
-  sorry
+/-- `matches_empty_string() == MATCHES_ZLS_ANYWHERE` is sound: the empty match exists at every offset.
+
+    ORIGINAL STATEMENT — FALSE as stated (no well-formedness hypothesis): for a repeat with
+    `min > max` (e.g. `.rep 0 .nothing 2 1 true`) `matches_empty_string` answers ANYWHERE (it only
+    looks at `min` and the child) but the language is empty.  Kept as a `Prop`; refuted by
+    `mzs_anywhere_sound_false`; the true statement (for well-formed trees, which is all the compiler
+    builds and all the driver admits) is `mzs_anywhere_sound_partial`. -/
+def mzs_anywhere_sound : Prop :=
+  ∀ (ctx : Ctx) (op : Op), mzs op = ZLS_ANYWHERE → ∀ (p : Nat), p ≤ ctx.len → OpR ctx op p p
+
+section counterexample
+private def cexCtx : Ctx :=
+  { input := [], caseBlind := false, multiLine := false, hasBackrefs := false, maxParens := 1,
+    lower := fun c => c }
+private def cexOp : Op := .rep 0 .nothing 2 1 true
+
+example : mzs cexOp = ZLS_ANYWHERE := by decide
+example : wfOp cexOp = false := by decide
+
+/-- the original `mzs_anywhere_sound` is false -/
+theorem mzs_anywhere_sound_false : ¬ mzs_anywhere_sound := by
+  intro h
+  have h1 := h cexCtx cexOp (by decide) 0 (Nat.zero_le _)
+  simp only [cexOp, OpR] at h1
+  obtain ⟨k, h2, h3, _⟩ := h1
+  omega
+end counterexample
+
+/-- `matches_empty_string() == MATCHES_ZLS_ANYWHERE` is sound on well-formed trees: the empty match
+    exists at every offset.  (Only the quantifier-bound part of `wfOp` is used:
+    `OptL.anywhere_op` needs `OptL.bnd op`, i.e. `min ≤ max` on every repeat.) -/
+theorem mzs_anywhere_sound_partial (ctx : Ctx) (op : Op) (hwf : wfOp op = true)
+    (h : mzs op = ZLS_ANYWHERE) (p : Nat) (hp : p ≤ ctx.len) : OpR ctx op p p :=
+  OptL.anywhere_op ctx op (OptL.bnd_of_wf op hwf) h p hp
 
 /-- `matches_empty_string() == MATCHES_ZLS_NEVER` is sound: no empty match anywhere -/
-theorem mzs_never_sound (ctx : Ctx) (op : Op) (h : mzs op = ZLS_NEVER) (p : Nat) : ¬ OpR ctx op p p := by
-  sorry
+theorem mzs_never_sound (ctx : Ctx) (op : Op) (h : mzs op = ZLS_NEVER) (p : Nat) : ¬ OpR ctx op p p :=
+  OptL.never_op ctx op h p
 
 /-- `optimize` preserves the language of every well-formed tree -/
 theorem optimize_preserves (env : Env) (fl : CFlags) (ctx : Ctx) (op : Op) (hwf : wfOp op = true)
     (p q : Nat) (hp : p ≤ ctx.len) :
-    OpR ctx (optimize env fl op) p q ↔ OpR ctx op p q := by
-  sorry
+    OpR ctx (optimize env fl op) p q ↔ OpR ctx op p q :=
+  OptL.opt_op env fl ctx op hwf p q hp
 
 /-- numbering the repeat nodes (their memo keys) does not change the language -/
 theorem numberReps_preserves (ctx : Ctx) (op : Op) (n : Nat) (p q : Nat) :
-    OpR ctx (numberReps op n).1 p q ↔ OpR ctx op p q := by
-  sorry
+    OpR ctx (numberReps op n).1 p q ↔ OpR ctx op p q :=
+  OptL.num_op ctx op n p q
 
 end Rx.C08
